@@ -73,6 +73,13 @@ def check(rep, tier, seed):
                          stdin_hex=open(m["path"], "rb").read().hex()[:4000], observed=g[:300], expected=want[:300],
                          detail="%s disagrees with numpy's astype(float64) on a file written by numpy" % who,
                          failing_input=(who == "implementation"))
+    # writer at the limit of the 2-byte header length field: spectra with thousands of axes of length 1 (numpy itself
+    # stops at 32/64 axes, so these are compared with the model only): bytes below the limit, a refusal - with nothing
+    # written - above it
+    lim = ["npyw %s %s" % (",".join(["1"] * dd), tok(random_bits(rng))) for dd in [33, 5000, 21000] + list(range(21805, 21830)) + [22000, 30000]]
+    mo_l, outs_l = compare_cases(rep, "npy-writer-header-length-limit", lim, nontrivial=lambda c, m: True,
+                                 classify=lambda c, m, i: "npy-writer:header-length-limit", spec=True)
+    rep.coverage["header_length_limit"] = {"accepted": sum(1 for m in mo_l if m != "ERR"), "refused": sum(1 for m in mo_l if m == "ERR")}
     # writer: numpy must load what sfs writes, for every header length modulo 64
     shapes, residues = shapes_all_header_lengths(rng)
     wcases = []
